@@ -84,7 +84,7 @@ pub fn exec(_label: &str, input: &str, out: &mut CaseOut) {
     let (a, b, c) = (&vals[0], &vals[1], &vals[2]);
     out.nontrivial = true;
     for (x, y) in [(a, b), (b, c), (a, c), (b, a), (a, a)] {
-        out.req(format!("cmp {} {}", vx::show(x), vx::show(y)), reply(x, y));
+        out.req(format!("C12 cmp {} {}", vx::show(x), vx::show(y)), reply(x, y));
     }
     if vals.iter().any(has_nan) {
         out.stat("has_nan");
